@@ -201,12 +201,10 @@ Definition resize (L : list param) (v : vec) (n : Z) : vec :=
 (* ---------- move_elements_forward (vector.hpp:434-447) ---------- *)
 (* trivially relocatable lists: one memmove plus table update
    (elementLocator.hpp:21-28, 97-105, 219-222) *)
-Fixpoint shift_slots (s : list (option Z)) (from to : nat) (diff : Z) (n : nat) : list (option Z) :=
-  match n with
-  | O => s
-  | S n' =>
-      shift_slots (upd to (option_map (fun x => x - diff) (nth from s None)) s) (S from) (S to) diff n'
-  end.
+(* std::transform(slots + from, slots + size, slots + to, x -> x - diff): the [n] slots
+   from index [from] on, decremented, overwrite the slots from index [to] on (to < from) *)
+Definition shift_slots (s : list (option Z)) (from to : nat) (diff : Z) (n : nat) : list (option Z) :=
+  firstn to s ++ map (option_map (fun x => x - diff)) (firstn n (skipn from s)) ++ skipn (to + n) s.
 
 Definition move_forward_triv (L : list param) (v : vec) (from to : Z) : vec * list ev :=
   if has_varying L && (from =? t_size (v_tbl v)) then (v, []) else
